@@ -391,7 +391,7 @@ def c05(tier, rng):
                 s.poll(i), s.deliver(M.pubcomp(pid)), s.poll(i)
             s.deliver(M.pingresp()), s.poll(other)
             out.append(case("crosstype-%s-%s" % (kind, wrong), s.script(), ["crosstype"]))
-    return out + r6("C05") + r7("C05") + r8("C05")
+    return out + r6("C05") + r7("C05") + r8("C05") + r9("C05")
 
 
 # ---- C06 ------------------------------------------------------------------------------------------
@@ -515,7 +515,7 @@ def c06(tier, rng):
     c6 = case("blocked-disc", s.script(), ["blocked-writer"])
     c6["model"] = False
     out.append(c6)
-    return out + r6("C06") + r7("C06") + r8("C06")
+    return out + r6("C06") + r7("C06") + r8("C06") + r9("C06")
 
 
 # ---- C07 ------------------------------------------------------------------------------------------
@@ -665,7 +665,7 @@ def c07(tier, rng):
         out.append(walk(rng, rng.choice([30, 60]) if tier == "quick" else rng.choice([60, 250]),
                         {"kinds": ["sub", "sub", "unsub", "pub1", "ping"], "streams": True, "drops": k % 2 == 0},
                         "walk%d" % k))
-    return out + r6("C07") + r7("C07") + r8("C07")
+    return out + r6("C07") + r7("C07") + r8("C07") + r9("C07")
 
 
 # ---- C08 ------------------------------------------------------------------------------------------
@@ -757,7 +757,7 @@ def c08(tier, rng):
         out.append(walk(rng, 40 if tier == "quick" else 150,
                         {"kinds": ["sub", "pub1", "ping"], "streams": True, "inbound": True, "drops": True,
                          "redeliver": True}, "walk%d" % k))
-    return out + r6("C08") + r7("C08") + r8("C08")
+    return out + r6("C08") + r7("C08") + r8("C08") + r9("C08")
 
 
 # ---- C09 ------------------------------------------------------------------------------------------
@@ -870,7 +870,7 @@ def c09(tier, rng):
         for _ in range(9):
             st.ev("pollstream %d" % a)
         out.append(case("inbound-beyond-R%d" % rm, st.script(), ["rm-inbound"]))
-    return out + r6("C09") + r7("C09") + r8("C09")
+    return out + r6("C09") + r7("C09") + r8("C09") + r9("C09")
 
 
 # ---- C10 ------------------------------------------------------------------------------------------
@@ -1031,7 +1031,7 @@ def c10(tier, rng):
         out.append(walk(rng, rng.choice([30, 60]) if tier == "quick" else rng.choice([80, 300]),
                         {"kinds": ["pub0", "pub1", "pub2", "pub1", "pub2", "ping"], "fail": 0.35,
                          "rmax": rng.choice([1, 2, 3, 5])}, "walk%d" % k))
-    return out + r6("C10") + r7("C10") + r8("C10")
+    return out + r6("C10") + r7("C10") + r8("C10") + r9("C10")
 
 
 # ---- C11 ------------------------------------------------------------------------------------------
@@ -1142,7 +1142,7 @@ def c11(tier, rng):
     c = case("subscribes-65600", S().script() + " ; spinsub 65600", ["subid-wrap16"], release=False)
     c["model"] = False
     out.append(c)
-    return out + r6("C11") + r7("C11") + r8("C11")
+    return out + r6("C11") + r7("C11") + r8("C11") + r9("C11")
 
 
 # ---- C12 ------------------------------------------------------------------------------------------
@@ -1197,7 +1197,7 @@ def c12(tier, rng):
                     out.append(case("c%dw" % n, wm + " ; " + s.script(), [kind, "partial-writes"], L=L, M=Mx, kind=kind))
                 n += 1
     out += c12_extra()
-    return out + r6("C12") + r7("C12") + r8("C12")
+    return out + r6("C12") + r7("C12") + r8("C12") + r9("C12")
 
 
 # ---- C13 ------------------------------------------------------------------------------------------
@@ -1478,7 +1478,7 @@ def c13(tier, rng):
         s = mk()
         s.deliver(M.pingresp()), s.deliver(M.puback(77)), s.deliver(M.publish(b"z", b"z"))
         out.append(case("nocause-" + name, s.script(), ["nocause"]))
-    return out + r6("C13") + r7("C13") + r8("C13")
+    return out + r6("C13") + r7("C13") + r8("C13") + r9("C13")
 
 
 # ---- C14 ------------------------------------------------------------------------------------------
@@ -1568,7 +1568,7 @@ def c14(tier, rng):
     for k in range(n_cases(tier, 80, 2000)):
         out.append(walk(rng, rng.choice([10, 25, 50]) if tier == "quick" else rng.choice([20, 60, 200]),
                         {"streams": True, "hold": True, "dropctx_at_end": True, "fail": 0.1}, "walk%d" % k))
-    return out + r6("C14") + r7("C14") + r8("C14")
+    return out + r6("C14") + r7("C14") + r8("C14") + r9("C14")
 
 
 # ---- C15 ------------------------------------------------------------------------------------------
@@ -1740,7 +1740,7 @@ def c15(tier, rng):
         out.append(walk(rng, rng.choice([20, 50]) if tier == "quick" else rng.choice([50, 200]),
                         {"drops": True, "streams": True, "hold": k % 2 == 0, "fail": 0.2,
                          "rmax": rng.choice([None, 2, 4]), "no_k2": True}, "walk%d" % k))
-    return out + r6("C15") + r7("C15") + r8("C15")
+    return out + r6("C15") + r7("C15") + r8("C15") + r9("C15")
 
 
 # ---- C16 ------------------------------------------------------------------------------------------
@@ -1830,7 +1830,7 @@ def c16(tier, rng):
         # wmode must come first so that CONNECT is written under it
         script = " ; ".join(new)
         out.append(case("walk%d-m%d" % (k, mode), script, c["tags"] + ["mode%d" % mode]))
-    return out + r6("C16") + r7("C16") + r8("C16")
+    return out + r6("C16") + r7("C16") + r8("C16") + r9("C16")
 
 
 # ---- C17 ------------------------------------------------------------------------------------------
@@ -2030,7 +2030,7 @@ def c17(tier, rng):
         for i in (a, b2, c3):
             s.poll(i)
         out.append(case("resume-under-R%d" % rm2, s.script(), ["resume-rm"]))
-    return out + r6("C17") + r7("C17") + r8("C17")
+    return out + r6("C17") + r7("C17") + r8("C17") + r9("C17")
 
 
 # ---- round 6 --------------------------------------------------------------------------------------------------------------
@@ -2740,4 +2740,61 @@ def r8(pid):
             for i in y:
                 st.deliver(M.puback(st.ops[i]["pid"])), st.poll(i)
             out.append(case("abandoned-with-pubrel-queued-R%d" % R, st.script(), ["abandoned", "pubrel-queued"]))
+    return out
+
+
+# ---- round 9 ------------------------------------------------------------------------------------------------------------------
+def r9(pid):
+    out = []
+    if pid in ("C10", "C15"):
+        # a QoS 2 publish abandoned before its PUBREC: a PUBREC below 0x80 completes nothing, the slot stays taken whoever waits
+        for R in (1, 2, 3):
+            st = S(connack_props=[(33, R)])
+            fill = [st.pub(q=2, payload=b"f%d" % k) for k in range(R)]
+            for i in fill:
+                st.poll(i)
+            st.ev("dropop %d" % fill[0])
+            st.deliver(M.pubrec(st.ops[fill[0]]["pid"]))
+            more = [st.pub(q=1 + k % 2, payload=b"m%d" % k) for k in range(2)]
+            for i in more:
+                st.poll(i)
+            for i in more:
+                st.poll(i)
+            out.append(case("abandoned-before-pubrec-R%d" % R, st.script(), ["abandoned", "R%d" % R]))
+    if pid in ("C07", "C13"):
+        # streams end when the Context is gone, not when a connection ends: after the user's DISCONNECT (any Session Expiry
+        # Interval, 0 and omitted included) the stream is still there, and serves the next connection of the same Context
+        for nm, co in (("omitted", ""), ("zero", "sei=0"), ("nonzero", "sei=30")):
+            st = S(connect_opts=co)
+            a = st.sub(b"a")
+            st.poll(a), st.deliver(M.suback(1)), st.poll(a), st.ev("tostream %d" % a)
+            st.deliver(M.publish(b"a", b"m1", 0, None, ps=[(11, 1)])), st.ev("pollstream %d" % a)
+            d = st.disc()
+            st.poll(d), st.poll(d)
+            st.ev("pollstream %d" % a)
+            st.ev("reconnect"), st.ev(("connect " + co).strip()), st.deliver(M.connack(0)), st.ev("run")
+            st.deliver(M.publish(b"a", b"m2", 1, 9, ps=[(11, 1)])), st.ev("pollstream %d" % a), st.ev("pollstream %d" % a)
+            st.ev("dropctx"), st.ev("pollstream %d" % a)
+            out.append(case("stream-outlives-disconnect-%s" % nm, st.script(), ["stream-outlives", nm]))
+    if pid == "C10":
+        # RETAIN is a flag of the message, not of the exchange: retained QoS>0 publishes take and free slots like any other
+        for R in (1, 2):
+            for q in (1, 2):
+                st = S(connack_props=[(33, R)])
+                fill = [st.pub(q=q, payload=b"r%d" % k, extra="ret=1") for k in range(R)]
+                for i in fill:
+                    st.poll(i)
+                x = st.pub(q=3 - q, payload=b"over", extra="ret=1")
+                st.poll(x), st.poll(x)
+                p0 = st.ops[fill[0]]["pid"]
+                if q == 1:
+                    st.deliver(M.puback(p0)), st.poll(fill[0])
+                else:
+                    st.deliver(M.pubrec(p0)), st.poll(fill[0]), st.deliver(M.pubcomp(p0)), st.poll(fill[0])
+                more = [st.pub(q=q, payload=b"n%d" % k, extra="ret=%d" % (1 - k)) for k in range(2)]
+                for i in more:
+                    st.poll(i)
+                for i in more:
+                    st.poll(i)
+                out.append(case("retained-R%d-q%d" % (R, q), st.script(), ["retained", "R%d" % R]))
     return out
